@@ -89,7 +89,7 @@ void h_run(Case &c) {
   Doc doc = parse_doc(src); CHECK(c, doc.ok, "harness_parse", "the harness could not parse a hwloc export");
   int nmut = 0; size_t trunc = 0, trunc_escaped = 0; bool byteflip = false;
   for (size_t i = 0; i < c.ops.size(); i++) {
-    Draw &o = c.ops[i]; std::vector<Node *> all; collect(doc.root, all); Node *n = all[o.raw() % all.size()]; int k = o.range(0, 16); std::string what;
+    Draw &o = c.ops[i]; std::vector<Node *> all; collect(doc.root, all); Node *n = all[o.raw() % all.size()]; int k = o.range(0, 17); std::string what;
     // objects dominate every document: one mutation in three targets the non-object elements (distances, memory attributes, CPU kinds, infos,
     // page types, userdata, support) or their parents, whose importers have their own bounds and counters (seeded change C06)
     { uint32_t pickv = o.raw(); if (o.chance(1, 3)) { std::vector<Node *> special; for (Node *x : all) { if (x->tag != "object" && x->tag != "topology") special.push_back(x); else for (auto &kid : x->kids) if (kid.tag != "object") { special.push_back(x); break; } } std::vector<Node *> counted; for (Node *x : special) if (x->tag.find("distances") != std::string::npos || x->tag.find("memattr") != std::string::npos || x->tag.find("cpukind") != std::string::npos) counted.push_back(x);
@@ -111,6 +111,16 @@ void h_run(Case &c) {
           if (!other2.empty()) { Node *dst = other2[o.raw() % other2.size()]; for (auto &a : dst->attrs) if (a.first == "type") dty = a.second; std::string mty; for (auto &a : moved.attrs) if (a.first == "type") mty = a.second; dst->kids.push_back(moved); what = strf("reparent object %s below %s", mty.c_str(), dty.c_str()); } } } }
     else if (k == 16 && !n->attrs.empty()) {   // a document that ends inside an attribute value holding escape sequences (the in-place unescaping moves a read and a write cursor)
       auto &a = n->attrs[o.raw() % n->attrs.size()]; int ne = o.range(1, 12); std::string v = "ESCV"; static const char *esc[] = {"&amp;", "&quot;", "&lt;", "&gt;", "&apos;", "&#10;"}; for (int e = 0; e < ne; e++) { v += o.pick(esc); if (o.chance(1, 3)) v += "z"; } a.second = v; trunc_escaped = 1 + o.raw() % (v.size() + 2); what = strf("end the document inside an escaped value of <%s %s> (%d escapes)", n->tag.c_str(), a.first.c_str(), ne); }
+    else if (k == 17) {   // one set attribute of an object replaced by a well-formed set taken from another object of the same type (or from one of its own other sets):
+      // every value is a valid bitmap, only the relations between cpuset / complete_cpuset / nodeset / os_index and the neighbours break (PU and NUMA singleton rules, inclusion rules)
+      auto type_of = [](const Node *x) -> std::string { for (auto &a : x->attrs) if (a.first == "type") return a.second; return ""; };
+      auto is_set = [](const std::string &nm) { return nm == "cpuset" || nm == "complete_cpuset" || nm == "nodeset" || nm == "complete_nodeset"; };
+      std::vector<Node *> cand; for (Node *x : all) if (x->tag == "object") for (auto &a : x->attrs) if (is_set(a.first)) { cand.push_back(x); break; }
+      { std::vector<Node *> leaves; for (Node *x : cand) { std::string ty = type_of(x); if (ty == "PU" || ty == "NUMANode") leaves.push_back(x); } if (!leaves.empty() && o.chance(2, 3)) cand = leaves; }
+      if (!cand.empty()) { Node *x = cand[o.raw() % cand.size()]; std::vector<size_t> sa; for (size_t ai = 0; ai < x->attrs.size(); ai++) if (is_set(x->attrs[ai].first)) sa.push_back(ai); size_t ai = sa[o.raw() % sa.size()];
+        std::vector<std::string> vals; std::string ty = type_of(x); bool cpu = x->attrs[ai].first.find("cpuset") != std::string::npos;
+        for (Node *y : all) if (y->tag == "object" && type_of(y) == ty) for (auto &a : y->attrs) if (is_set(a.first) && (a.first.find("cpuset") != std::string::npos) == cpu && a.second != x->attrs[ai].second) vals.push_back(a.second);
+        if (!vals.empty()) { std::string nv = vals[o.raw() % vals.size()]; what = strf("set <object type=%s %s=\"%s\"> to \"%s\" (a set of another %s)", ty.c_str(), x->attrs[ai].first.c_str(), x->attrs[ai].second.substr(0, 30).c_str(), nv.substr(0, 30).c_str(), ty.c_str()); x->attrs[ai].second = nv; c.cls("mut:set-of-a-sibling"); } } }
     else if (k == 10) { for (auto &a : doc.root.attrs) if (a.first == "version") a.second = mutate_value(o, "version", a.second); what = "change topology version"; }
     else if (k == 11) { trunc = 1 + o.raw(); what = "truncate"; }
     else if (k == 12) { byteflip = true; what = "flip a byte"; }
